@@ -254,7 +254,8 @@ func loginEdits(encrypted bool) []loginEdit {
 				set("response mask zero", "EITHER", func(x *lPkg) { x.Zero = "resp" })
 				// other shapes of the capability package: no capability granted at all is "all-zero capabilities"
 				set("no types at all", "MUST-FAIL", func(x *lPkg) { x.Zero = "none" })
-				set("masks of length zero", "EITHER", func(x *lPkg) { x.Zero = "len0" })
+				// (masks without a single byte grant nothing either: the same all-zero answer spelled shorter)
+				set("masks of length zero", "MUST-FAIL", func(x *lPkg) { x.Zero = "len0" })
 				set("request type only", "EITHER", func(x *lPkg) { x.Zero = "onlyreq" })
 				set("response type only", "EITHER", func(x *lPkg) { x.Zero = "onlyresp" })
 				set("with security type", "EITHER", func(x *lPkg) { x.Zero = "sec" })
